@@ -39,6 +39,8 @@ type Stream struct {
 	Via   string `json:"via"`
 	FromR int    `json:"fromr"` // wanted residue (mod 255) of the sender's process id, -1 = any
 	ToR   int    `json:"tor"`
+	Comp  string `json:"comp"` // compression of the sender ("" = off); the threshold sits between the small and the big messages of the stream
+	Big   int    `json:"big"`  // every third message has this size (0 = all small)
 }
 
 type Case struct {
@@ -521,11 +523,20 @@ func (r *DRunner) RunCase(c *Case) error {
 			go func() {
 				defer wg.Done()
 				drv[i] = doOn(p.A, x.from, func(s *sender) {
+					if x.st.Comp != "" {
+						s.SetCompression(true)
+						s.SetCompressionType(compOf(x.st.Comp).Type)
+						s.SetCompressionThreshold(1024)
+					}
 					for k := 1; k <= x.st.N; k++ {
 						if k == 3 && i == 0 {
 							close(started)
 						}
-						if err := s.Send(x.to, mkPayload(fmt.Sprintf("seq:%s:%d", x.key, k), 24+k%200)); err != nil {
+						size := 24 + k%200
+						if x.st.Big > 0 && k%3 == 0 {
+							size = x.st.Big
+						}
+						if err := s.Send(x.to, mkPayload(fmt.Sprintf("seq:%s:%d", x.key, k), size)); err != nil {
 							errs[i]++
 						} else {
 							sent[i]++
